@@ -38,6 +38,8 @@ def check(repo, col, tier):
     from . import c02 as _c02
     col.rule("R-C15-currents", "membrane currents are computed at and accumulated into the rows of their channel", 9)
     _c02.channel_current_rows(repo, col, "R-C15-currents")
+    col.rule("R-C15-schedule", "the level sweeps of the custom solvers triangulate and back-substitute every level with its own accessors", 8)
+    c01_solver._schedule(repo, col, "R-C15-schedule")
     col.rule("R-C15-ends", "branch-point edges attach at each branch's own first / last compartment", 4)
     c01_solver._ends(repo, col, "R-C15-ends")
 
